@@ -119,6 +119,48 @@ def run(prog: Program, col: Collector, tier: str, refs: Optional[Refs] = None, c
                else "white_vec / prec_sqrt are not concatenated pairwise along axis -1 with the operands in the same order")
     col.check(ok, construct, "align both to lhs.inputs+rhs.inputs (expand=True); cat([lhs_w, rhs_w], -1), cat([lhs_P, rhs_P], -1)",
               why + ": the fused factor then pairs a white_vec column with another operand's prec_sqrt column, or blocks of different inputs", f.loc())
+    # both alignments are unconditional, or skipped only under an order-sensitive comparison of the inputs (R04.22's reading)
+    from .kernels import _order_sensitive_inputs_test
+    for a in als:
+        guards = [g_ for g_ in f.module.ancestors(a) if isinstance(g_, ast.If)]
+        for g_ in guards:
+            verdict, why_ = _order_sensitive_inputs_test(g_.test)
+            if verdict is False:
+                col.violation(f"{f.fq}::alignment skipped", f"{why_}; the operand is then fused without align_gaussian, so its blocks are read under the other operand's order of inputs "
+                              "(g1(x, y) + g2(y, x))", f.loc(g_))
+            elif verdict is None:
+                col.unresolved(f"{f.fq}::alignment skipped", f"an operand is aligned only under `{norm(g_.test)[:50]}`", f.loc(g_))
+    # ---------------------------------------------------------------- R12.5 (shared with C04 R04.6)
+    cat = cat or Catalogue(prog, refs)
+    from . import c04
+    col.rule("R12.5", "a stage of Gaussian.eager_subs with ground values is never followed by the integer-keyed pairs; open stages test for clashes (shared with C04 R04.6)", floor=3)
+    c04._staging(prog, col, refs, cat, c04._subs_collections(prog, refs, cat))
+    # ---------------------------------------------------------------- R12.6 concatenation of Gaussians keeps every part's constant
+    col.rule("R12.6", "concatenating Gaussian mixtures adds the discrete parts whenever ANY part has one", floor=1)
+    fc = require_func(prog, "funsor.joint::eager_cat_homogeneous")
+    # the list of optional discrete parts: appended in the loop over the parts, with a None alternative
+    lists = {}
+    for c_ in ast.walk(fc.node):
+        if isinstance(c_, ast.Call) and isinstance(c_.func, ast.Attribute) and c_.func.attr == "append" and isinstance(c_.func.value, ast.Name) and c_.args and isinstance(c_.args[0], ast.Name):
+            v_ = c_.args[0].id
+            if any(isinstance(st, ast.Assign) and norm(st.targets[0]) == v_ and isinstance(st.value, ast.Constant) and st.value.value is None for st in ast.walk(fc.node)):
+                lists[c_.func.value.id] = v_
+    done6 = False
+    for L in lists:
+        for g_ in [x for x in walk_no_nested(fc.node) if isinstance(x, ast.If)]:
+            fills = any(isinstance(y, ast.Compare) and isinstance(y.ops[0], ast.Is) and isinstance(y.comparators[0], ast.Constant) and y.comparators[0].value is None for y in ast.walk(ast.Module(body=g_.body, type_ignores=[])))
+            uses_L = any(isinstance(y, ast.Name) and y.id == L for st in g_.body for y in ast.walk(st))
+            if not (fills and uses_L):
+                continue
+            done6 = True
+            t = g_.test
+            existential = isinstance(t, ast.Call) and isinstance(t.func, ast.Name) and t.func.id == "any" and t.args and isinstance(t.args[0], (ast.GeneratorExp, ast.ListComp)) \
+                and norm(t.args[0].generators[0].iter) == L
+            col.check(existential, f"{fc.fq}::if {norm(t)[:50]}", f"any(d is not None for d in {L})",
+                      f"the discrete (constant) parts are added only under `{norm(t)[:50]}`, which does not ask ALL parts: a plain Gaussian first and a Gaussian + Tensor part later (the "
+                      "by-product of rank compression) loses the later parts' constants", fc.loc(g_))
+    if not done6:
+        col.unresolved(f"{fc.fq}::discrete parts", "the block that merges the optional discrete parts was not found", fc.loc())
     # ---------------------------------------------------------------- R12.4
     from . import c19
     col.rule("R12.4", "the inputs of an aligned result are the requested names, then the remaining inputs (shared with C19 R19.2)", floor=3)
